@@ -148,17 +148,16 @@ def gen_manager_case(rng, tier):
 # tiny systems for the exhaustive enumeration (thorough tier): (bracket_rungs, n_workers, max_trials)
 TINY = [
     ([[[2, 1], [1, 2]]], 2, 3),
-    ([[[2, 1], [1, 2]]], 3, 4),
-    ([[[3, 1], [1, 3]]], 2, 3),
-    ([[[3, 1], [2, 2], [1, 4]]], 3, 3),
-    ([[[2, 1], [1, 3]], [[1, 3]]], 2, 4),
-    ([[[3, 1], [1, 3]], [[2, 3]]], 3, 4),
-    ([[[3, 1], [2, 2], [1, 4]], [[2, 2], [1, 4]], [[1, 4]]], 2, 4),
-    ([[[4, 1], [2, 2]]], 2, 4),
+    ([[[2, 1], [1, 2]]], 3, 3),
+    ([[[3, 1], [1, 3]]], 3, 3),
+    ([[[3, 1], [2, 2], [1, 4]]], 2, 3),
+    ([[[2, 1], [1, 3]], [[1, 3]]], 2, 3),
+    ([[[3, 1], [1, 3]], [[2, 3]]], 2, 4),
+    ([[[3, 1], [2, 2], [1, 4]], [[2, 2], [1, 4]], [[1, 4]]], 2, 3),
 ]
 
 
-def enumerate_scripts(systems, n_workers, max_trials, mode, style, cap=4000):
+def enumerate_scripts(systems, n_workers, max_trials, mode, style, cap=6000):
     """all choice sequences (suggest / report t / fail t) of the scripted scenario, found by
     depth-first search on the real scheduler"""
     base = {"level": "scheduler", "ctor": {"mode": mode, "bracket_rungs": systems, "max_resource_attr": False, "searcher_data": "rungs"},
@@ -180,7 +179,7 @@ def enumerate_scripts(systems, n_workers, max_trials, mode, style, cap=4000):
 
 
 def gen_cases(rng, tier):
-    n_s, n_m = (90, 30) if tier == "quick" else (2200, 500)
+    n_s, n_m = (90, 30) if tier == "quick" else (1500, 400)
     for _ in range(n_s):
         yield gen_scheduler_case(rng, tier)
     for _ in range(n_m):
